@@ -206,6 +206,7 @@ class PersImage(TransformerMixin):
         """Convert a diagram to a landscape
         (b,d) -> (b, d-b)
         """
+        diagram = np.copy(diagram)
         diagram[:, 1] -= diagram[:, 0]
 
         return diagram
